@@ -17,12 +17,15 @@ git -C /repo worktree add -q "$wt" HEAD || exit 2
 cd "$wt"
 log=$dst/confirm.log
 : > "$log"
-PYTHONPATH=$wt timeout 900 /venv/bin/python "$dst/demo.py" >> "$log" 2>&1; rc0=$?
+# the demonstrations expect to live in <worktree>/_seed/ (next to helper files they may need)
+mkdir -p "$wt/_seed"; cp -r "$src"/. "$wt/_seed/"
+PYTHONPATH=$wt timeout 900 /venv/bin/python "$wt/_seed/demo.py" >> "$log" 2>&1; rc0=$?
 echo "demo without patch: rc=$rc0" | tee -a "$log"
-git apply "$dst/patch.diff" || { echo "PATCH DOES NOT APPLY" | tee -a "$log"; exit 2; }
-PYTHONPATH=$wt timeout 900 /venv/bin/python "$dst/demo.py" >> "$log" 2>&1; rc1=$?
+git apply --exclude='_seed/*' "$dst/patch.diff" || { echo "PATCH DOES NOT APPLY" | tee -a "$log"; exit 2; }
+PYTHONPATH=$wt timeout 900 /venv/bin/python "$wt/_seed/demo.py" >> "$log" 2>&1; rc1=$?
 echo "demo with patch: rc=$rc1" | tee -a "$log"
 if [ "${SKIP_SUITE:-0}" != "1" ]; then
+  rm -rf "$wt/_seed"
   PYTHONPATH=$wt timeout 5400 /venv/bin/python -m pytest -q -p no:cacheprovider --timeout=900 --continue-on-collection-errors > "$dst/suite.log" 2>&1
   tail -1 "$dst/suite.log" | tee -a "$log"
   grep "^FAILED" "$dst/suite.log" | tee -a "$log"
